@@ -214,15 +214,16 @@ def check_records(case, ctx: Ctx):
         # the same records with chromosomes given as ids already (decode_chroms=False; unlisted = -1, dropped by the
         # documented filter whether or not the positions are validated)
         ids = {nm: k for k, nm in enumerate(bt["names"])}
-        df2 = df_in.copy()
-        df2["chrom1"] = np.array([ids.get(c, -1) for c in df_in["chrom1"]], dtype=np.int64)
-        df2["chrom2"] = np.array([ids.get(c, -1) for c in df_in["chrom2"]], dtype=np.int64)
+        # (a pristine frame: the sanitizer works on the frame it is given and has already mirrored df_in's records)
+        df2 = _frame(shuffled, case["one_based"])
+        df2["chrom1"] = np.array([ids.get(c, -1) for c in df2["chrom1"]], dtype=np.int64)
+        df2["chrom2"] = np.array([ids.get(c, -1) for c in df2["chrom2"]], dtype=np.int64)
         for validate in (True, False):
             san2 = call("sanitize_records(decode_chroms=False)", sanitize_records, gen.bins_df(bt), schema="pairs", decode_chroms=False,
                         is_one_based=case["one_based"], tril_action=case["tril"], validate=validate)
-            before2 = df2.copy()
-            o2 = call(f"sanitize_records(decode_chroms=False, tril_action={case['tril']!r}, validate={validate})(chunk)", san2, df2)
-            check(df2.equals(before2), "sanitize_records(decode_chroms=False) modified the caller's frame")
+            # (the chunk is a copy of a frame, as chunks cut from a larger table are: under copy-on-write pandas its
+            # columns are then read-only views)
+            o2 = call(f"sanitize_records(decode_chroms=False, tril_action={case['tril']!r}, validate={validate})(chunk)", san2, df2.copy())
             got2 = sorted(zip(o2["rid"].tolist(), o2["bin1_id"].tolist(), o2["bin2_id"].tolist()))
             want2 = sorted((rid, exp[rid][0], exp[rid][1]) for rid in want_ids)
             check(got2 == want2, lambda: f"pre-encoded chromosome ids, validate={validate}: (record, bin1, bin2) {got2[:6]} want {want2[:6]}")
